@@ -1,4 +1,325 @@
+"""C13 proof layer: frames of the output-path computations in the structural path algebra (pyvc.libos).
+
+For every input path form (relative/absolute, with/without leading directories, with/without trailing separator):
+  default outputs lie BESIDE the input: dirname(OUT) == dirname(normpath(IN)), OUT is not inside IN, IN is not inside OUT;
+  every path handed to a write-class call by the writers is inside the requested output directory.
+The statements computing the paths are mechanically extracted fragments of the real functions (everything else of the
+function is dropped)."""
+import ast
+import z3
+from pyvc.vals import *  # noqa
+from pyvc.task import Task, FragmentTask
+from pyvc.libos import PathVal, to_path, is_inside, comp_eq, os_path_split, os_path_normpath
+from pyvc.exec import LIBS, Const, lib
+
+FORMS = [(a, d, t) for a in (False, True) for d in (False, True) for t in (False, True)]
+
+
+def make_input(tag, absolute, has_dir, trailing):
+    D = Opaque(f"D{tag}", "path", absolute=absolute)
+    B = Opaque(f"B{tag}", "name")
+    parts = ([("dir", D)] if has_dir else []) + [("name", B)]
+    return PathVal(parts, absolute, trailing), B
+
+
+def form_name(f):
+    a, d, t = f
+    return ("abs" if a else "rel") + ("+dirs" if d else "") + ("+slash" if t else "")
+
+
+def beside_obligations(ex, inp, out, label="default-output", strict=True, name_assumed=False):
+    ctx = ex.ctx
+    out = to_path(ex, out)
+    nin = os_path_normpath(ex, [inp], {})
+    if not name_assumed and not (nin.absolute and not out.absolute):
+        # (a working-directory default against an absolute input: 'the working directory is not inside an input' is a
+        #  stated precondition, not an obligation)
+        ctx.oblige(f"{label}.not-inside-the-input", is_inside(ex, out, nin) is False, "P", note=f"{out!r} vs {nin!r}")
+        if strict:
+            ctx.oblige(f"{label}.input-not-inside-it", is_inside(ex, nin, out) is False, "P", note=f"{out!r} vs {nin!r}")
+    din = os_path_split(ex, [nin], {})[0]
+    dout = os_path_split(ex, [PathVal(out.parts, out.absolute, False)], {})[0]
+    same = din.absolute == dout.absolute and len(din.parts) == len(dout.parts) and all(
+        comp_eq(ex, x, y) is True for x, y in zip(din.parts, dout.parts))
+    return same
+
+
+class DefaultOut(FragmentTask):
+    prop = "C13"
+    reach = "U"
+
+    def __init__(self, tool, form):
+        self.tool, self.form = tool, form
+        self.name = f"default-output[{tool},{form_name(form)}]"
+        cfg = TOOLS[tool]
+        self.qual = cfg["qual"]
+        self.first = cfg["first"]
+        self.last = cfg.get("last", cfg["first"])
+        self.whole = cfg.get("whole", False)
+
+    def setup(self, ex):
+        inp, B = make_input("", *self.form)
+        cfg = TOOLS[self.tool]
+        frame = cfg["frame"](ex, inp)
+        return {"frame": frame, "inp": inp, "B": B}
+
+    def call(self, ex, inp):
+        if self.whole:
+            return TOOLS[self.tool]["run"](ex, inp)
+        return FragmentTask.call(self, ex, inp)
+
+    def post(self, ex, inp, out):
+        ctx = ex.ctx
+        ctx.oblige("raises-nothing", out.kind == "ret", "P", note=str(out.exc))
+        if out.kind != "ret":
+            return
+        outs = TOOLS[self.tool]["out"](ex, inp, out.value)
+        beside_cwd = TOOLS[self.tool].get("cwd_default", False)
+        for o in outs:
+            same = beside_obligations(ex, inp["inp"], o, strict=not beside_cwd, name_assumed=TOOLS[self.tool].get("name_assumed", False))
+            if beside_cwd:
+                # combine: the documented default is <name1><name2> in the working directory
+                p = to_path(ex, o)
+                ctx.oblige("default-output.is-one-new-name-in-the-working-directory", len(p.parts) == 1 and not p.absolute, "P", note=repr(p))
+            else:
+                ctx.oblige("default-output.beside-the-input", same, "P", note=repr(o))
+
+
+def is_if_testing(name):
+    def pred(s):
+        return isinstance(s, ast.If) and name in ast.unparse(s.test) and "None" in ast.unparse(s.test)
+    return pred
+
+
+def chef_frame(ex, inp):
+    return {"plotfile": inp, "outfile": None, "self": Record("amr_kitchen.chef.chef.Chef")}
+
+
+def chk_frame(ex, inp):
+    return {"chkdir": inp, "pltdir": None, "self": Record("amr_kitchen.chk2plt.chk2plt.chk2plt")}
+
+
+def combine_frame(ex, inp):
+    inp2, _ = make_input("2", False, True, inp.trailing)
+    a0 = Record("amr_kitchen.plotfile_cooker.PlotfileCooker", pfile=inp)
+    a1 = Record("amr_kitchen.plotfile_cooker.PlotfileCooker", pfile=inp2)
+    return {"args": (a0, a1), "kwargs": {"pltout": None, "inplace": False}, "output": {}}
+
+
+def mandoline_run(ex, inp):
+    self_ = Record("amr_kitchen.mandoline.mandoline.Mandoline", pfile=inp["inp"], ndims=3, geo_high=[1.0, 1.0, 1.0],
+                   geo_low=[0.0, 0.0, 0.0], pos=0.5, cn=0, coordnames={0: "x", 1: "y", 2: "z", 3: "2D"}, slicefields=["temp"])
+    return ex.call_qual("amr_kitchen.mandoline.mandoline.Mandoline.default_output_path", [], {}, self_obj=self_)
+
+
+class RecFS:
+    def __init__(self):
+        self.opened = []
+
+    def open(self, ex, path, mode):
+        from pyvc.libfile import WFile
+        self.opened.append((to_path(ex, path), mode))
+        if "w" in mode:
+            return WFile(path, z3.Int(f"fid{len(self.opened)}"), text="b" not in mode)
+        raise Unsupported("read access in a path-frame task")
+
+
+def marinate_run(ex, inp):
+    fs = RecFS()
+    ex.ctx.ghost["fs"] = fs
+    LIBS[("sys", "argv")] = Const(["marinate", inp["inp"]])
+    LIBS[("pickle", "dump")] = lambda ex_, a, k: None
+    ex.contracts["amr_kitchen.plotfile_cooker.PlotfileCooker.__new__"] = lambda ex_, a, k: Record("amr_kitchen.plotfile_cooker.PlotfileCooker")
+    ex.call_qual("amr_kitchen.marinate.main", [], {})
+    return fs
+
+
+TOOLS = {
+    "chef": {"qual": "amr_kitchen.chef.chef.Chef.__init__", "first": staticmethod(is_if_testing("outfile")), "frame": chef_frame,
+             "out": lambda ex, inp, v: [v["self"].attrs.get("outdir")]},
+    "chk2plt": {"qual": "amr_kitchen.chk2plt.chk2plt.chk2plt.__init__", "first": staticmethod(is_if_testing("pltdir")), "frame": chk_frame,
+                "out": lambda ex, inp, v: [v["self"].attrs.get("pltdir")]},
+    "combine": {"qual": "amr_kitchen.combine.combine.validate_combine_input", "first": staticmethod(is_if_testing("pltout")),
+                "frame": combine_frame, "out": lambda ex, inp, v: [v["output"].get("pltout")], "cwd_default": True},
+    "mandoline": {"qual": "amr_kitchen.mandoline.mandoline.Mandoline.default_output_path", "first": None, "whole": True,
+                  "frame": lambda ex, inp: {}, "run": mandoline_run, "out": lambda ex, inp, v: [v], "name_assumed": True},
+    "marinate": {"qual": "amr_kitchen.marinate.main", "first": None, "whole": True, "frame": lambda ex, inp: {},
+                 "run": marinate_run, "out": lambda ex, inp, v: [p for p, m in v.opened]},
+}
+for _t in TOOLS.values():
+    for _k in ("first", "last"):
+        if isinstance(_t.get(_k), staticmethod):
+            _t[_k] = _t[_k].__func__
+
+
+# ---------------------------------------------------------------------------------------------------------------------
+# write-site frames of the writers for an EXPLICIT output directory
+
+
+class WriteSite(FragmentTask):
+    """The path expression handed to a write-class call lies inside the requested output directory, keeps the level
+    directory and the binary file name (so distinct tasks get distinct files)."""
+    prop = "C13"
+    reach = "U"
+
+    def __init__(self, key, out_abs):
+        cfg = SITES[key]
+        self.key, self.out_abs = key, out_abs
+        self.qual = cfg["qual"]
+        self.first = FragmentTask.assigns(cfg["first"])
+        self.last = FragmentTask.assigns(cfg["var"])
+        self.name = f"write-site[{key},{'abs' if out_abs else 'rel'} output]"
+
+    def setup(self, ex):
+        IN, _ = make_input("in", True, True, False)
+        OUTD = Opaque("OUT", "path", absolute=self.out_abs)
+        OUT = PathVal([("dir", OUTD), ("name", Opaque("outname", "name"))], self.out_abs, False)
+        fname = ("name", Opaque("Cell_D_x", "name"))
+        frame = SITES[self.key]["frame"](ex, IN, OUT, fname)
+        return {"frame": frame, "OUT": OUT, "fname": fname}
+
+    def post(self, ex, inp, out):
+        ctx = ex.ctx
+        ctx.oblige("raises-nothing", out.kind == "ret", "P", note=str(out.exc))
+        if out.kind != "ret":
+            return
+        cfg = SITES[self.key]
+        v = out.value.get(cfg["var"])
+        ctx.oblige("post.fragment-defines-the-path", v is not None, "P")
+        if v is None:
+            return
+        p = to_path(ex, v)
+        OUT = inp["OUT"]
+        root = OUT if OUT.absolute else None
+        if root is None:
+            # relative output: the code either anchors it at os.getcwd() or leaves it relative (same directory)
+            from pyvc.libos import os_getcwd, join2
+            root = join2(ex, os_getcwd(ex, [], {}), OUT) if p.absolute else OUT
+        ctx.oblige("frame.inside-the-requested-output", is_inside(ex, p, root) is True, "P", note=f"{p!r} under {root!r}")
+        tail = cfg.get("tail", [])
+        exp_tail = [inp["fname"] if t == "@file" else t for t in tail]
+        got = p.parts[-len(exp_tail):] if exp_tail else []
+        ctx.oblige("frame.keeps-level-directory-and-file-name",
+                   len(got) == len(exp_tail) and all(b == "@any" or comp_eq(ex, a, b) is True for a, b in zip(got, exp_tail)), "P", note=repr(p))
+
+
+def rec_pck(cls, IN, OUT=None, **kw):
+    return Record(cls, pfile=IN, outdir=OUT, cell_paths=["Level_0", "Level_1"], **kw)
+
+
+def in_file(IN, fname):
+    return PathVal(IN.parts + ["Level_1", fname], IN.absolute, False)
+
+
+SITES = {
+    "colander.binary": {"qual": "amr_kitchen.colander.colander.Colander.strain", "first": "bfile_r", "var": "bfile_w",
+                        "frame": lambda ex, IN, OUT, f: {"self": rec_pck("amr_kitchen.colander.colander.Colander", IN, OUT), "bfile_r": in_file(IN, f), "lv": 1},
+                        "tail": ["Level_1", "@file"]},
+    "colander.cell_header": {"qual": "amr_kitchen.colander.colander.Colander.update_cell_header", "first": "cell_header_w", "var": "cell_header_w",
+                             "frame": lambda ex, IN, OUT, f: {"self": rec_pck("amr_kitchen.colander.colander.Colander", IN, OUT), "lv": 1},
+                             "tail": ["Level_1", "Cell_H"]},
+    "colander.header": {"qual": "amr_kitchen.colander.colander.Colander.write_strained_global_header", "first": "hfile_path", "var": "hfile_path",
+                        "frame": lambda ex, IN, OUT, f: {"self": rec_pck("amr_kitchen.colander.colander.Colander", IN, OUT)}, "tail": ["Header"]},
+    "combine.binary(byfile)": {"qual": "amr_kitchen.plotfile_cooker.PlotfileCooker.by_binfile_output", "first": "bfile_r1", "var": "bfile_w",
+                               "frame": lambda ex, IN, OUT, f: {"self": rec_pck("amr_kitchen.plotfile_cooker.PlotfileCooker", IN), "bf1": in_file(IN, f),
+                                                                "bf2": in_file(IN, f), "pltout": OUT, "lv": 1}, "tail": ["Level_1", "@file"]},
+    "combine.binary(bybox)": {"qual": "amr_kitchen.plotfile_cooker.PlotfileCooker.by_matched_offsets_output", "first": "bfile_r1", "var": "bfile_w",
+                              "frame": lambda ex, IN, OUT, f: {"self": rec_pck("amr_kitchen.plotfile_cooker.PlotfileCooker", IN), "bf1": in_file(IN, f),
+                                                               "bfiles_2": [], "pltout": OUT, "lv": 1}, "tail": ["Level_1", "@file"]},
+    "combine.cell_header": {"qual": "amr_kitchen.combine.combine.rewrite_level_header", "first": "cell_header_w", "var": "cell_header_w",
+                            "frame": lambda ex, IN, OUT, f: {"pck1": rec_pck("amr_kitchen.plotfile_cooker.PlotfileCooker", IN), "pltout": OUT, "lv": 1},
+                            "tail": ["Level_1", "Cell_H"]},
+    "combine.header": {"qual": "amr_kitchen.plotfile_cooker.PlotfileCooker.write_global_header_new_fields", "first": "hfile_path", "var": "hfile_path",
+                       "frame": lambda ex, IN, OUT, f: {"self": rec_pck("amr_kitchen.plotfile_cooker.PlotfileCooker", IN), "plt_path": OUT}, "tail": ["Header"]},
+    "chef.binary": {"qual": "amr_kitchen.chef.chef.Chef.cook", "first": "newbfpath", "var": "newbfpath",
+                    "frame": lambda ex, IN, OUT, f: {"self": rec_pck("amr_kitchen.chef.chef.Chef", IN, OUT), "bfpath": in_file(IN, f), "lv": 1},
+                    "tail": ["Level_1", "@file"]},
+    "chef.cell_header": {"qual": "amr_kitchen.chef.chef.Chef.update_cell_header", "first": "cell_header_w", "var": "cell_header_w",
+                         "frame": lambda ex, IN, OUT, f: {"self": rec_pck("amr_kitchen.chef.chef.Chef", IN, OUT), "lv": 1}, "tail": ["Level_1", "Cell_H"]},
+    "chef.header": {"qual": "amr_kitchen.chef.chef.Chef.write_global_header", "first": "hfile_path", "var": "hfile_path",
+                    "frame": lambda ex, IN, OUT, f: {"self": rec_pck("amr_kitchen.chef.chef.Chef", IN, OUT)}, "tail": ["Header"]},
+    "chk2plt.binary": {"qual": "amr_kitchen.chk2plt.chk2plt.chk2plt.convert", "first": "bin_path_plt", "var": "bin_path_plt",
+                       "frame": lambda ex, IN, OUT, f: {"self": Record("amr_kitchen.chk2plt.chk2plt.chk2plt", chkdir=IN, pltdir=OUT),
+                                                        "lv_plt_root": PathVal(OUT.parts + ["Level_1"], OUT.absolute, False),
+                                                        "state_bin": PathVal([("fun", "state_file")], False, False), "level": 1},
+                       "tail": ["Level_1", "@any"]},
+}
+
+
 def path_tasks(prop):
-    return []
+    out = []
+    for tool in TOOLS:
+        for f in FORMS:
+            out.append(DefaultOut(tool, f))
+    for key in SITES:
+        for a in (False, True):
+            out.append(WriteSite(key, a))
+    return out
+
+
 def path_canaries():
-    return []
+    return [("chef default computed on the unnormalised path",
+             [("amr_kitchen/chef/chef.py", 'self.outdir = os.path.normpath(plotfile) + "_ck"', 'self.outdir = plotfile + "_ck"')],
+             ["default-output[chef,rel+slash]"]),
+            ("colander binary written next to the input file",
+             [("amr_kitchen/colander/colander.py", "bfile_w = os.path.join(os.getcwd(),self.outdir,", "bfile_w = os.path.join(os.getcwd(),self.pfile,")],
+             ["write-site[colander.binary,rel output]"])]
+
+
+# ---------------------------------------------------------------------------------------------------------------------
+# an I/O fault at any write-class call of a worker leaves it as an exception (exceptional postcondition; loop bodies
+# are executed for an arbitrary iteration, so this covers every crash point of the run)
+
+
+def with_fault(task_cls, *args):
+    class Faulty(task_cls):
+        def setup(self, ex):
+            inp = task_cls.setup(self, ex)
+
+            def hook(ex_, kind, path):
+                g = ex_.ctx.ghost
+                if g.get("fault_done"):
+                    return
+                if ex_.ctx.choose(2) == 1:
+                    g["fault_done"] = (kind, str(path))
+                    raise SymRaise("OSError", f"injected fault at {kind}")
+            ex.ctx.ghost["fault_hook"] = hook
+            return inp
+
+        def post(self, ex, inp, out):
+            done = ex.ctx.ghost.get("fault_done")
+            if done:
+                ex.ctx.oblige(f"fault-at-{done[0]}-is-not-swallowed", out.kind == "exc" and out.exc.etype == "OSError", "P",
+                              note=str(out.value if out.kind == "ret" else out.exc))
+            else:
+                ex.ctx.oblige("no-fault-run-returns", out.kind == "ret", "X")
+    t = Faulty(*args)
+    t.prop = "C13"
+    t.name = "fault-propagation:" + t.name
+    return t
+
+
+_orig_path_tasks = path_tasks
+
+
+def path_tasks(prop):      # noqa: F811
+    from props.C05 import StrainWorker
+    from props.combine_kernels import ByBoxes, ByBinfile
+    from props.chef_kernels import UserPfileKnife
+    from props.chk_kernels import ChkWorker
+    out = _orig_path_tasks(prop)
+    out += [with_fault(StrainWorker, 3), with_fault(StrainWorker, 2), with_fault(ByBoxes), with_fault(ByBinfile),
+            with_fault(UserPfileKnife, True), with_fault(ChkWorker, True, True, False)]
+    return out
+
+
+_orig_canaries = path_canaries
+
+
+def path_canaries():       # noqa: F811
+    return _orig_canaries() + [
+        ("strain worker swallows a failed write",
+         [("amr_kitchen/colander/colander.py",
+           "            arr_bytes = arr_out.flatten(order=\"F\").tobytes()\n            bfw.write(arr_bytes)\n    return offsets\n\n\ndef parallel_strain_2d",
+           "            arr_bytes = arr_out.flatten(order=\"F\").tobytes()\n            try:\n                bfw.write(arr_bytes)\n            except OSError:\n                pass\n    return offsets\n\n\ndef parallel_strain_2d")],
+         ["fault-propagation:parallel_strain_3d"])]
